@@ -14,6 +14,15 @@ CLAIMED = {
         "DESIGN.md §4 C05",
         "exploration",
     ),
+    "C20": (
+        "exhaustive argv enumeration vs reference parser + Hypothesis patch()-entry sequences with identity oracle",
+        "Every valid invocation up to a bounded target-argument length is enumerated against a reference parser of the documented "
+        "grammar (exhaustive within the bound); patch() entry sequences over good/bad/lazy extra targets and exit modes are generated "
+        "and checked by object identity before/inside/after. Exploration (exhaustive for the bounded CLI space).",
+        "cli_argv observes main() with patch()/runpy replaced by recorders; the end-to-end facet (real patch, real runpy) samples the same space.",
+        "DESIGN.md §4 C20",
+        "exploration",
+    ),
 }
 
 NOT_YET = {}
